@@ -267,14 +267,14 @@
 ;@ defines wsigNode
 (assert (forall ((hf Int) (PS (Array Int Int)) (A (Array Int Int)) (SK (Array Int Int)) (sko Int) (M (Array Int Int)) (mo Int) (lw Int) (w Int) (len1 Int) (sh Int) (nb Int) (i Int))
   (! (= (wsigNode hf PS A SK sko M mo lw w len1 sh nb i)
-        (chain hf PS (store A 5 i) (prfArr hf (sub SK sko 32) (toByte32 i)) 0 (wdig M mo i lw w len1 sh nb)))
+        (chain hf PS (store A 5 i) (sub (prfArr hf (sub SK sko 32) (toByte32 i)) 0 32) 0 (wdig M mo i lw w len1 sh nb)))
      :pattern ((wsigNode hf PS A SK sko M mo lw w len1 sh nb i)))))
 (declare-fun wgenNode (Int (Array Int Int) (Array Int Int) (Array Int Int) Int Int Int) (Array Int Int))
 ;@ needs wgenNode
 ;@ defines wgenNode
 (assert (forall ((hf Int) (PS (Array Int Int)) (A (Array Int Int)) (SK (Array Int Int)) (sko Int) (w Int) (i Int))
   (! (= (wgenNode hf PS A SK sko w i)
-        (chain hf PS (store A 5 i) (prfArr hf (sub SK sko 32) (toByte32 i)) 0 (- w 1)))
+        (chain hf PS (store A 5 i) (sub (prfArr hf (sub SK sko 32) (toByte32 i)) 0 32) 0 (- w 1)))
      :pattern ((wgenNode hf PS A SK sko w i)))))
 ; the generated WOTS+ public key as one byte string: byte p is byte p mod 32 of element p div 32
 (declare-fun wgenArr (Int (Array Int Int) (Array Int Int) (Array Int Int) Int Int) (Array Int Int))
